@@ -447,6 +447,28 @@ class Interp:
             if c is False:
                 return self.run(st.orelse, [env], depth)
             return self.run(st.body, [copy.copy(env)], depth) + self.run(st.orelse, [copy.copy(env)], depth)
+        if isinstance(st, ast.For) and isinstance(st.iter, (ast.Tuple, ast.List)) and isinstance(st.target, ast.Name) and not st.orelse \
+                and all(isinstance(e_, (ast.Attribute, ast.Name)) for e_ in st.iter.elts) \
+                and not any(isinstance(n_, ast.Assign) and any(isinstance(t_, ast.Name) and t_.id == st.target.id for t_ in n_.targets) for n_ in ast.walk(st)):
+            # `for payload in (self.a, self.b): payload += [None] * (...)`: the loop variable is an alias of each container in turn (lists are updated in place):
+            # the body once per container, with the container written in place of the variable
+            var_ = st.target.id
+
+            class _Sub(ast.NodeTransformer):
+                def __init__(self, repl):
+                    self.repl = repl
+
+                def visit_Name(self, n_):
+                    if n_.id == var_:
+                        new_ = copy.deepcopy(self.repl)
+                        new_.ctx = type(n_.ctx)()
+                        return ast.copy_location(new_, n_)
+                    return n_
+            envs = [env]
+            for e_ in st.iter.elts:
+                body_ = [ast.fix_missing_locations(_Sub(e_).visit(copy.deepcopy(b_))) for b_ in st.body]
+                envs = self.run(body_, envs, depth)
+            return envs
         if isinstance(st, (ast.For, ast.While)):
             for n in ast.walk(st):
                 if isinstance(n, (ast.Name, ast.Attribute)) and isinstance(getattr(n, "ctx", None), ast.Store):
